@@ -4,3 +4,5 @@
 package zap
 
 func verifPoll(closeCh chan struct{}) {}
+
+func verifSynCacheGate() {}
